@@ -398,7 +398,13 @@ def fwd_cases():
 
 # ---- hex acceptance (incl. known finding K3) --------------------------------------------------------------
 def hexrun_cases():
-    return st.fixed_dictionaries({"payload": st.binary(min_size=8, max_size=40), "upper": st.booleans(), "digits_prefix": st.integers(0, 12), "embed": embed_st()})
+    return st.fixed_dictionaries({"payload": st.binary(min_size=8, max_size=40), "upper": st.booleans(), "digits_prefix": st.integers(0, 12), "embed": embed_st(), "glue": st.sampled_from([None, None, 0, 1, 2, 3, 4, 5])})
+
+
+# text glued directly in front of a run: ends in a hex letter of the *other* case (the run still starts right after it), or in
+# a letter that is no hex digit at all
+GLUE_BEFORE_LOWER = [b"SHELLCODE", b"$hexA", b"BLOB_B", b"xF", b"TAG", b"junk"]
+GLUE_BEFORE_UPPER = [b"payload", b"$buf", b"dataa", b"Xe", b"TAG", b"junk"]
 
 
 def check_hexrun(case) -> Outcome:
@@ -406,6 +412,11 @@ def check_hexrun(case) -> Outcome:
     p = bytes([0x12, 0x34, 0x56, 0x78, 0x90] * 3)[: case["digits_prefix"]] + case["payload"]
     t = X.hexencode(p, case["upper"])
     pre, suf = case["embed"]
+    if case.get("glue") is not None:
+        if re.match(rb"[0-9]{18}", t):
+            return o.exclude("glued hex letter followed by 18+ digits: the other-case alternative may claim it")
+        pre = pre + (GLUE_BEFORE_UPPER if case["upper"] else GLUE_BEFORE_LOWER)[case["glue"]]
+        o.label("hex:glued-after-letter")
     text = pre + t + suf
     a, b = len(pre), len(pre) + len(t)
     try:
